@@ -557,6 +557,10 @@ class Conv1d(OpDef):
     name = "conv1d"
     props = ("C02", "C06", "C10", "C11")
 
+    def may_reject(self, args):
+        # 'same' padding whose total d*(k-1) is odd needs one more padded position on the right than on the left
+        return args.get("p") == "same" and (args["d"] * (args["k"] - 1)) % 2 == 1
+
     def configs(self, tier):
         out = []
         for g in geo1d(tier):
@@ -567,6 +571,9 @@ class Conv1d(OpDef):
                                 "via": "F"})
             out.append({"N": 1, "Ci": 1, "Co": 2, "L": Lin, "k": k, "s": s, "p": p, "d": d, "bias": True, "via": "M"})
         out.append({"N": 1, "Ci": 1, "Co": 1, "L": 4, "k": 3, "s": 1, "p": "same", "d": 1, "bias": False, "via": "M"})
+        out.append({"N": 1, "Ci": 1, "Co": 1, "L": 4, "k": 3, "s": 1, "p": "same", "d": 2, "bias": True, "via": "M"})
+        out.append({"N": 1, "Ci": 1, "Co": 1, "L": 4, "k": 2, "s": 1, "p": "same", "d": 1, "bias": False, "via": "M"})   # odd total
+        out.append({"N": 1, "Ci": 1, "Co": 1, "L": 5, "k": 2, "s": 1, "p": "same", "d": 3, "bias": False, "via": "M"})   # odd total
         out.append({"N": 1, "Ci": 1, "Co": 1, "L": 4, "k": 2, "s": 1, "p": "valid", "d": 1, "bias": False, "via": "M"})
         return out
 
@@ -597,13 +604,11 @@ class Conv1d(OpDef):
         if p == "same":
             # PyTorch 'same': total padding d*(k-1), split left = total//2, right = total - left
             tot = d * (k - 1)
-            pl, pr = tot // 2, tot - tot // 2
-            if pl != pr:
-                raise NotImplementedError("asymmetric 'same' padding")
-            p = pl
+            p = tot // 2
         elif p == "valid":
             p = 0
-        Lout = out_len(args["L"], k, s, p, d)
+        # 'same' (stride 1): the output has the input's length; with an odd total the extra padded position is on the right
+        Lout = args["L"] if args["p"] == "same" else out_len(args["L"], k, s, p, d)
         if Lout < 1:
             raise ValueError("empty output")
         o = objarr((args["N"], args["Co"], Lout))
@@ -624,6 +629,12 @@ class Conv2d(OpDef):
     name = "conv2d"
     props = ("C02", "C06", "C10", "C11")
 
+    def may_reject(self, args):
+        if args.get("p") != "same":
+            return False
+        k, d = pair(arg(args["k"])), pair(arg(args["d"]))
+        return any((d[a] * (k[a] - 1)) % 2 == 1 for a in range(2))
+
     def configs(self, tier):
         out = []
         for idx, (hw, k, s, p, d) in enumerate(geo2d(tier)):
@@ -637,6 +648,8 @@ class Conv2d(OpDef):
         out.append({"H": 3, "W": 3, "k": [3, 3], "s": 1, "p": "same", "d": 1, "N": 1, "Ci": 1, "Co": 1, "bias": False, "via": "M"})
         out.append({"H": 3, "W": 4, "k": [1, 3], "s": 1, "p": "same", "d": 1, "N": 1, "Ci": 1, "Co": 1, "bias": False, "via": "M"})
         out.append({"H": 4, "W": 3, "k": [3, 1], "s": 1, "p": "same", "d": 1, "N": 1, "Ci": 1, "Co": 1, "bias": False, "via": "M"})
+        out.append({"H": 3, "W": 3, "k": [2, 3], "s": 1, "p": "same", "d": 1, "N": 1, "Ci": 1, "Co": 1, "bias": False, "via": "M"})   # odd total (H)
+        out.append({"H": 3, "W": 3, "k": [2, 2], "s": 1, "p": "same", "d": 1, "N": 1, "Ci": 1, "Co": 1, "bias": False, "via": "M"})   # odd totals
         out.append({"H": 3, "W": 3, "k": [2, 2], "s": 1, "p": "valid", "d": 1, "N": 1, "Ci": 1, "Co": 1, "bias": True, "via": "M"})
         out.append({"H": 3, "W": 3, "k": 2, "s": 1, "p": 0, "d": 1, "N": 1, "Ci": 1, "Co": 1, "bias": True, "via": "M"})
         return out
@@ -670,15 +683,16 @@ class Conv2d(OpDef):
         p = args["p"]
         if p == "same":
             tot = [d[a] * (k[a] - 1) for a in range(2)]
-            if any(t % 2 for t in tot):
-                raise NotImplementedError("asymmetric 'same' padding")
             p = (tot[0] // 2, tot[1] // 2)
         elif p == "valid":
             p = (0, 0)
         else:
             p = pair(arg(p))
-        lH = out_len(args["H"], k[0], s[0], p[0], d[0])
-        lW = out_len(args["W"], k[1], s[1], p[1], d[1])
+        if args["p"] == "same":     # stride 1: same extent as the input; an odd total puts the extra position at the bottom/right
+            lH, lW = args["H"], args["W"]
+        else:
+            lH = out_len(args["H"], k[0], s[0], p[0], d[0])
+            lW = out_len(args["W"], k[1], s[1], p[1], d[1])
         if lH < 1 or lW < 1:
             raise ValueError("empty output")
         o = objarr((args["N"], args["Co"], lH, lW))
